@@ -158,9 +158,6 @@ Definition new_signed_msg (ctx : bytes) (k : nat) (ht : Z) (data : bytes) : outc
     s <- new_signature ctx k ht data false ;;
     Ok {| m_from := SenderOf k; m_sig := s; m_data := data |}.
 
-(* UnmarshalSignedMsg followed by ExtractAndVerify.  The generated wire decoder
-   is not modelled here (C40 does that): its outcome is carried by the case. *)
-Definition decode_and_verify (decoded : outcome smsg) (ctx : bytes) : outcome nat :=
-  m <- decoded ;; extract_and_verify ctx m.
+(* UnmarshalSignedMsg followed by ExtractAndVerify on raw wire bytes: Sig/Wire.v *)
 
 Definition verify_cls_ok (o : outcome bool) : bool := match o with Ok true => true | _ => false end.
